@@ -18,6 +18,8 @@ REQUIRED_BRANCHES = [
     "d-hit-scored", "d-stats-as-logical-corpus", "d-multi-segment", "d-single-segment", "d-pending-deletions", "d-no-pending-deletions",
     "d-n-lt-N", "d-n-eq-N", "d-b1", "d-b0", "d-composite-field", "d-ice-v1", "d-ice-v2", "d-mem", "d-fs", "d-merging", "d-no-merging",
     "dmatchset-nonempty", "op:dsearch", "op:normrt",
+    # multi-term queries (prefix / wildcard / regexp / fuzzy / term range): one part per DISTINCT matching term, also when >= 3 segments share the term
+    "m-term-in-3plus-segments", "m-parts-ok", "m-multi-part", "m-prefix", "m-wildcard", "m-regexp", "m-fuzzy", "m-range", "mmatchset-nonempty", "op:msearch",
     "score-none-zero",                                # score mode "none": Score(0, 0) = 0 for b < 1 (and NaN for b = 1, branch score-none-nan: reported, outside 1 <= f)
 ]
 
@@ -36,6 +38,8 @@ ASSUMPTIONS = [
     "of the deleted bitmap per segment): bad:assumption-segment-n-le-N, bad:stats-not-sum-of-segments, bad:assumption-real-hit (= `RealHitOk` of the theorem is false)",
     "field lengths below 2^31 - 2^23 tokens (the float32 +Inf pattern): beyond it `dlSeen` is not the identity (theorem `dl_seen_bound_needed`); fields of user-defined Field types "
     "(the Field interface is public) may report any Length(); score mode \"none\" hands freq = 0, norm = 0 to the scorer (fact `freq-norm-loaded-unless-score-none`) and is outside 1 <= f",
+    "multi-term queries: the driver models prefix, `*`/`?` wildcards, a regexp subset (literals, `.`, classes, `x*`, top-level alternation), edit distance with adjacent "
+    "transpositions <= 2 and byte-ordered term ranges on the logical corpus; the per-term statistics of a part are read from the explanation of TermQuery(term) on the same reader",
     "term frequencies are non-negative (float64(freq) is modelled by the cast of a natural number)",
     "hypotheses of the theorems (0<k1, 0<=b<=1, 0<avgdl, 0<boost, 1<=n<=N<2^64, 1<=f, b<1 or 0<dl) are evaluated by the driver on every term node of every real hit; "
     "a hit outside them is reported as bad:assumption-…",
@@ -59,6 +63,10 @@ def signature(rec):
         # ONLY the idf node disagrees with its message on this line, and only for n < N (at n = N the driver says
         # `idf@n=N`); any further failing node or check changes the verdict text and is NOT the known finding
         return "idf-node-message-vs-value"
+    if "parts:duplicate-term-child" in v[4:].split("+"):
+        # a multi-term query (prefix / wildcard / regexp / fuzzy / term range) lists the SAME term's score part more than once in its
+        # "sum of:" explanation (the field dictionary enumerated a term twice): one signature whatever else the line shows
+        return "multi-term-query-duplicate-term-part"
     toks = []
     for t in v[4:].split("+"):
         if t.startswith("parts:"):
